@@ -76,6 +76,7 @@ func runC19(c *Ctx) {
 	c18Writer(c)
 	// a handshake must not write into its (shared) configuration
 	configReadOnlyRules(c, "C19")
+	pooledEscapeRules(c, "C19")
 }
 
 func c19Globals(c *Ctx) {
@@ -247,6 +248,9 @@ func c19Globals(c *Ctx) {
 											name = callee.String()
 										} else if cc.IsInvoke() {
 											name = cc.Method.FullName()
+										}
+										if strings.HasPrefix(name, "(*sync.Pool).") {
+											continue // sync.Pool is safe for concurrent use by construction
 										}
 										external[r.g.Name()+" -> "+name] = true
 									}
